@@ -144,6 +144,7 @@ func runC17(r *mon.Run) {
 	r.FloorFam("leaf-alter", 20)
 	r.FloorFam("component-cheat", 30)
 	r.FloorFam("component-position-alter", 500)
+	r.Floor("forbidden moduli for which all four sub-proofs verify (only the mod-8 condition rejects)", 1, func() int64 { return r.Get("bad_modulus_with_all_subproofs_valid") })
 	r.FloorAccept("component-honest", 4)
 }
 
@@ -548,6 +549,74 @@ func c17Components(r *mon.Run, rng *rand.Rand) {
 		cheat("quasisafe", "N != 5 mod 8 (proof of a good key, modulus shifted by a multiple of 8 plus 4)", func() bool {
 			return keyproof.VerifQuasiSafePrimeProductVerifyProof(add(n, bi(4)), challenge, qspp)
 		})
+		// a modulus whose second factor is Q = 4q'+1 (not an almost safe prime), chosen so that all four sub-protocols can be answered
+		// honestly by someone who knows the factorisation: only the N = 5 (mod 8) side condition stands in the way
+		{
+			findP := func(start *big.Int, res, mod int64, ok func(*big.Int) bool) *big.Int {
+				c := cp(start)
+				for new(big.Int).Mod(c, bi(mod)).Int64() != res {
+					c.Add(c, one)
+				}
+				for ; ; c.Add(c, bi(mod)) {
+					if c.Go().ProbablyPrime(30) && ok(c) {
+						return cp(c)
+					}
+				}
+			}
+			ppB := findP(add(pow2(uint(bits)), randBig(rng, bits-2)), 5, 8, func(v *big.Int) bool { return add(mul(v, bi(2)), one).Go().ProbablyPrime(30) })
+			PB := add(mul(ppB, bi(2)), one)
+			qpB := findP(add(pow2(uint(bits)+1), randBig(rng, bits-2)), 3, 4, func(v *big.Int) bool {
+				q := add(mul(v, bi(4)), one)
+				return q.Go().ProbablyPrime(30) && new(big.Int).Mod(mul(PB, q), bi(3)).Cmp(one) == 0
+			})
+			QB := add(mul(qpB, bi(4)), one)
+			NB := mul(PB, QB)
+			phiB := mul(sub(PB, one), sub(QB, one))
+			cheat("quasisafe", "N = (2p'+1)(4q'+1) = 7 mod 8 with all four sub-proofs answered honestly", func() bool {
+				// generalised almost-safe-prime-product prover (phi = 8p'q', odd part p'q')
+				nonce := randBig(rng, 256)
+				var commits, logs []*big.Int
+				for i := 0; i < 250; i++ {
+					base := refimpl.GetHashNumber(nonce, nil, i, uint(NB.BitLen()))
+					base.Mod(base, NB)
+					lg := new(big.Int).Mod(randBig(rng, phiB.BitLen()+64), phiB)
+					commits = append(commits, new(big.Int).Exp(base, lg, NB))
+					logs = append(logs, lg)
+				}
+				ch := refimpl.HashCommit(append([]*big.Int{NB}, commits...), false)
+				odd := mul(ppB, qpB)
+				half := new(big.Int).ModInverse(bi(2), odd)
+				aspp := keyproof.AlmostSafePrimeProductProof{Nonce: nonce, Commitments: commits}
+				for i := 0; i < 250; i++ {
+					xx := refimpl.GetHashNumber(ch, bi(3), i, uint(2*NB.BitLen()))
+					lg := new(big.Int).Mod(add(logs[i], xx), phiB)
+					x1 := new(big.Int).Mod(lg, odd)
+					x3 := new(big.Int).Mod(mul(half, x1), odd)
+					var root *big.Int
+					for _, xi := range []*big.Int{x1, sub(odd, x1), x3, sub(odd, x3)} {
+						if rt, ok := verifhooks.ModSqrt(xi, []*big.Int{ppB, qpB}); ok {
+							root = rt
+							break
+						}
+					}
+					if root == nil {
+						return false // construction failed; nothing to present
+					}
+					aspp.Responses = append(aspp.Responses, root)
+				}
+				var pr keyproof.QuasiSafePrimeProductProof
+				pr.SFproof = keyproof.VerifSquareFreeBuildProof(NB, phiB, ch, bi(0))
+				pr.PPPproof = keyproof.VerifPrimePowerProductBuildProof(PB, QB, ch, bi(1))
+				pr.DPPproof = keyproof.VerifDisjointPrimeProductBuildProof(PB, QB, ch, bi(2))
+				pr.ASPPproof = aspp
+				subOK := keyproof.VerifSquareFreeVerifyProof(NB, ch, bi(0), pr.SFproof) && keyproof.VerifPrimePowerProductVerifyProof(NB, ch, bi(1), pr.PPPproof) &&
+					keyproof.VerifDisjointPrimeProductVerifyProof(NB, ch, bi(2), pr.DPPproof) && keyproof.VerifAlmostSafePrimeProductVerifyProof(NB, ch, bi(3), pr.ASPPproof)
+				if subOK {
+					r.Add("bad_modulus_with_all_subproofs_valid", 1)
+				}
+				return keyproof.VerifQuasiSafePrimeProductVerifyProof(NB, ch, pr)
+			})
+		}
 		small := bi(1019)
 		cheat("quasisafe", "modulus with the factor 1019", func() bool {
 			return keyproof.VerifQuasiSafePrimeProductVerifyProof(mul(small, q), challenge, qspp)
